@@ -21,10 +21,10 @@ class Worker:
         self.oracle = procs.OracleClient(env.ORACLE_HASHSEEDS[0])
         self.alone = {}                      # (K, call) -> (result, steps)
 
-    def alone_run(self, K, call):
-        key = (K, call)
+    def alone_run(self, K, call, gran="instr"):
+        key = (K, call, gran)
         if key not in self.alone:
-            res, steps, herr = procs.fork_call(sched.run_alone, self.sf, K, call, timeout=120.0)
+            res, steps, herr = procs.fork_call(sched.run_alone, self.sf, K, call, gran, timeout=400.0)
             if herr:
                 raise procs.HarnessError("alone run: " + herr)
             want = self.oracle.query(K, call)
@@ -37,7 +37,7 @@ class Worker:
         return self.alone[key]
 
     def run_spec(self, spec):
-        return procs.fork_call(sched.run, self.sf, spec, timeout=150.0)
+        return procs.fork_call(sched.run, self.sf, spec, timeout=spec.get("wall", 100.0) + 50.0)
 
     def close(self):
         self.oracle.close()
@@ -233,10 +233,15 @@ def gen_spec(base_seed, i, W):
                     call = first if rng.random() < 0.5 else (first[0], first[1], first[2], rng.random() < 0.5)
             calls.append(call)
         threads.append(calls)
-    alone = [[W.alone_run(K, c) for c in calls] for calls in threads]
+    # runs with deep-nesting inputs are pre-empted at source lines (native LINE events): a change
+    # that lets such inputs succeed makes them quadratic, which bytecode events cannot afford
+    gran = "native-line" if any(len(c[1]) > 4000 for calls in threads for c in calls) else None
+    alone = [[W.alone_run(K, c, gran or "instr") for c in calls] for calls in threads]
     total = sum(s for calls in alone for _, s in calls)
     kind = ("random", "window", "stall", "pct", "window", "stall", "random")[i % 7]     # stratified
     policy = {"kind": kind, "gran": rng.choice(("instr", "instr", "line"))}
+    if gran:
+        policy["gran"] = gran
     if kind == "stall":
         policy["c"] = rng.choice((1 / 100, 1 / 300, 1 / 1000))   # about 2 / 0.7 / 0.2 expected stall opportunities per run
         policy["stalls"] = rng.choice((1, 1, 2, 3))
@@ -259,7 +264,8 @@ def gen_spec(base_seed, i, W):
                 probes.append(c)
     probes = probes[:6] + [("decode", dec[-2], False, False), ("decode", dec[-1], False, True)]
     spec = {"table": K, "threads": threads, "policy": policy, "seed": "%d:schedsim:sched:%d" % (base_seed, i),
-            "budget": 50 * total + 20000, "probes": probes, "theme": theme, "info": info}
+            "budget": 50 * total + 20000, "probes": probes, "theme": theme, "info": info,
+            "wall": 400.0 if gran else 100.0}
     return spec, alone
 
 
@@ -279,7 +285,7 @@ def judge(W, spec, rec):
     K = spec["table"]
     for t, calls in enumerate(spec["threads"]):
         for j, c in enumerate(calls):
-            want, _ = W.alone_run(K, tuple(c))
+            want, _ = W.alone_run(K, tuple(c), "native-line" if spec["policy"].get("gran") == "native-line" else "instr")
             got = rec["results"][t][j]
             if got is None or tuple(got) != tuple(want):
                 return {"class": "result_ne_alone", "detail": {"thread": t, "call": j, "input": list(c),
